@@ -89,12 +89,13 @@ def execute(job):
     for n, c in init.items():
         os.makedirs(os.path.dirname(os.path.join(root, n)), exist_ok=True)
         with open(os.path.join(root, n), "wb") as f:
-            f.write(CONTENTS[c])
+            f.write(CONTENTS.get(c, b""))          # "c0" = the empty version (only the hub's lock file starts as it)
     dirs = {n[:i] for n in init for i, ch in enumerate(n) if ch == "/"}          # paths that are directories on the hub
     program = job["program"]
     n = max(program)
     r = hc.HubRun(CFG["copia"], CFG["shim"], root, n, d, CONTENTS)
     r.hashes = CFG["hashes"]
+    r.track_lock = bool(job.get("track_lock"))
     r.lock_open_visible = job.get("policy") in ("lock_stress", "lock_identity")
     ops = {}
     for sid in range(1, n + 1):
@@ -109,7 +110,8 @@ def execute(job):
                     op["len_delta"] = -5
                 # a Put aimed at a path that is a directory cannot take effect: like a bad Put it must be answered by an
                 # error reply and change nothing
-                op["valid"] = k == "put" and rq[1] not in dirs
+                # - and so must a Put into the hub's own control directory (.copia/): it holds the commit lock
+                op["valid"] = k == "put" and rq[1] not in dirs and rq[1].split("/")[0] != ".copia"
                 op["conf"] = rq[1] + "#" + rq[3]
             elif k == "delete":
                 op = {"kind": "delete", "path": rq[1], "exp": rq[2]}
@@ -256,4 +258,7 @@ def compute_hashes(b3bin, workdir):
         with open(p, "wb") as f:
             f.write(v)
         out[k] = subprocess.run([b3bin, "b3", p], capture_output=True, text=True).stdout.strip()
+    p = os.path.join(workdir, "c_c0")
+    open(p, "wb").close()
+    out["c0"] = subprocess.run([b3bin, "b3", p], capture_output=True, text=True).stdout.strip()      # expected-hash only, never a content
     return out
